@@ -269,15 +269,22 @@ type c20Target struct {
 	mn   mocknet.Mocknet
 }
 
-func c20NewTarget(t *testing.T, withAccount bool) *c20Target {
+// withAccount: "" (fresh store) or how the store's account came into existence before the restore
+func c20NewTarget(t *testing.T, withAccount string) *c20Target {
 	mn := mocknet.New()
 	dsB := dsync.MutexWrap(ds.NewMapDatastore())
 	ss, err := secretstore.NewSecretStore(dsB, nil)
 	if err != nil {
 		t.Fatalf("harness: %v", err)
 	}
-	if withAccount {
+	switch withAccount {
+	case "existing-account":
 		_, _, _ = ss.GetGroupForAccount()
+	case "existing-account/account-key-only":
+		_, _ = ss.GetAccountPrivateKey()
+	case "existing-account/member-of-a-group-only":
+		g, _, _ := NewGroupMultiMember()
+		_, _ = ss.GetOwnMemberDeviceForGroup(g)
 	}
 	node := ipfsutil.TestingCoreAPIUsingMockNet(vCtx, t, &ipfsutil.TestingAPIOpts{Logger: zap.NewNop(), Mocknet: mn, Datastore: dsB, DiscoveryServer: tinder.NewMockDriverServer()})
 	odb, err := NewWeshOrbitDB(vCtx, node.API(), &NewOrbitDBOptions{NewOrbitDBOptions: orbitdb.NewOrbitDBOptions{Logger: zap.NewNop()}, Datastore: dsB, SecretStore: ss})
@@ -412,7 +419,7 @@ func TestVerif_C20_RoundTrip(t *testing.T) {
 		if id, msg := c20CheckArchive(src); id != "" {
 			fail(id, msg)
 		}
-		tgt := c20NewTarget(t, false)
+		tgt := c20NewTarget(t, "")
 		defer tgt.close()
 		err, timedOut, pan := tgt.restore(c20Tar(src.files), 30*time.Second)
 		if pan != nil {
@@ -451,7 +458,7 @@ func TestVerif_C20_Mutants(t *testing.T) {
 				headIdx = append(headIdx, i)
 			}
 		}
-		kinds := []string{"entry-byte-flip", "entry-under-other-name", "key-dropped", "proof-key-dropped", "key-duplicated", "existing-account", "heads-byte-flip", "key-byte-flip",
+		kinds := []string{"entry-byte-flip", "entry-under-other-name", "key-dropped", "proof-key-dropped", "key-duplicated", "existing-account", "existing-account/account-key-only", "existing-account/member-of-a-group-only", "heads-byte-flip", "key-byte-flip",
 			"entry-dropped", "reordered-keys-last", "reordered-heads-first", "truncated-tar", "entry-trailing-garbage"}
 		// every mutation kind once per exported history
 		for _, kind := range kinds {
@@ -460,7 +467,7 @@ func TestVerif_C20_Mutants(t *testing.T) {
 				files[i] = c20File{f.Name, append([]byte(nil), f.Data...)}
 			}
 			mustReject := false
-			withAccount := false
+			withAccount := ""
 			var archive []byte
 			pickEntry := func() int {
 				if len(entryIdx) == 0 {
@@ -507,8 +514,8 @@ func TestVerif_C20_Mutants(t *testing.T) {
 			case "key-duplicated":
 				files = append(files, c20File{exportAccountKeyFilename, append([]byte(nil), src.keyA...)})
 				mustReject = true
-			case "existing-account":
-				withAccount = true
+			case "existing-account", "existing-account/account-key-only", "existing-account/member-of-a-group-only":
+				withAccount = kind
 				mustReject = true
 			case "heads-byte-flip":
 				if len(headIdx) == 0 {
